@@ -449,6 +449,12 @@ class BooleanExpression(FilterExpression):
                     f"({expr})" if parent_precedence >= PRECEDENCE_LOGICAL_OR else expr
                 )
 
+            # A comparison or membership test. An operand that is itself an infix
+            # or prefix expression keeps its grouping.
+            left = self._canonical_operand(expression.left)
+            right = self._canonical_operand(expression.right)
+            return f"{left} {expression.operator} {right}"
+
         if isinstance(expression, PrefixExpression):
             operand = self._canonical_string(expression.right, PRECEDENCE_PREFIX)
             if isinstance(expression.right, InfixExpression) and not (
@@ -460,6 +466,12 @@ class BooleanExpression(FilterExpression):
             return f"({expr})" if parent_precedence > PRECEDENCE_PREFIX else expr
 
         return str(expression)
+
+    def _canonical_operand(self, expression: FilterExpression) -> str:
+        operand = self._canonical_string(expression, PRECEDENCE_LOWEST)
+        if isinstance(expression, (InfixExpression, PrefixExpression)):
+            return f"({operand})"
+        return operand
 
     def evaluate(self, context: FilterContext) -> bool:
         return context.env.is_truthy(self.expression.evaluate(context))
